@@ -119,6 +119,9 @@ func (e *Enc) callWith(fr *Frame, c *ssa.CallCommon, site ssa.Instruction, st *S
 		return e.applyContract(fr, ct, key, fn.Signature, args, false, st, rb, site, resType)
 	}
 	e.countCall(fr, key, args, st, rb, site)
+	if r, st2, ok := e.higherOrderStd(fr, key, c, args, st, resType); ok {
+		return r, st2, rb
+	}
 	// synthetic wrappers (bound methods, thunks) and in-repo functions: inline
 	if e.canInline(fr, fn) {
 		return e.inline(fr, fn, args, callee.Clo.Bind, st, rb)
@@ -483,7 +486,7 @@ func matchComp(p, c string) bool {
 		return strings.HasPrefix(c, "G:") && strings.HasSuffix(c, t)
 	}
 	if strings.HasPrefix(c, "F:") {
-		ty, f, ok := cutLast(strings.TrimPrefix(c, "F:"), ".")
+		ty, f, ok := cutLast(stripBrackets(strings.TrimPrefix(c, "F:")), ".")
 		pt, pf, ok2 := cutLast(p, ".")
 		if ok && ok2 && (pf == "*" || pf == f) && (ty == pt || strings.HasSuffix(ty, "."+pt) || strings.HasSuffix(ty, "/"+pt)) {
 			return true
@@ -756,6 +759,7 @@ func freshDerived(v ssa.Value, seen map[ssa.Value]bool) bool {
 func (e *Enc) loopModSet(fr *Frame, body map[*ssa.BasicBlock]bool) func(string) bool {
 	set := map[string]bool{}
 	nonFresh := map[string]bool{} // components with a store whose target is not known to be fresh
+	dirtySet := map[string]bool{} // components callee contracts say they modify
 	e.loopFreshOnly = nil
 	all := false
 	allRepo := false
@@ -767,7 +771,9 @@ func (e *Enc) loopModSet(fr *Frame, body map[*ssa.BasicBlock]bool) func(string) 
 		if c.IsInvoke() {
 			key := ifaceMethodKey(c.Value.Type(), c.Method)
 			if ct := e.w.ct.Funcs[key]; ct != nil {
-				e.addContractMods(ct, set, &all, &allRepo, &pats, &logs)
+				before := len(pats)
+				e.addContractMods(ct, dirtySet, &all, &allRepo, &pats, &logs)
+				_ = before
 				return
 			}
 			all = true
@@ -778,7 +784,7 @@ func (e *Enc) loopModSet(fr *Frame, body map[*ssa.BasicBlock]bool) func(string) 
 			switch v.Name() {
 			case "append":
 				// append writes into a backing store that the model always allocates anew
-				if st, ok := c.Args[0].Type().Underlying().(*types.Slice); ok && depth == 0 {
+				if st, ok := c.Args[0].Type().Underlying().(*types.Slice); ok {
 					set[e.elemComp(st.Elem())] = true
 					set["$alloc"] = true
 				} else {
@@ -790,7 +796,7 @@ func (e *Enc) loopModSet(fr *Frame, body map[*ssa.BasicBlock]bool) func(string) 
 			return
 		case *ssa.Function:
 			if ct := e.w.ct.Funcs[fnKey(v)]; ct != nil && !ct.Inline {
-				e.addContractMods(ct, set, &all, &allRepo, &pats, &logs)
+				e.addContractMods(ct, dirtySet, &all, &allRepo, &pats, &logs)
 				return
 			}
 			if v.Blocks != nil && strings.HasPrefix(fnPkgPath(v), modulePath) {
@@ -799,6 +805,25 @@ func (e *Enc) loopModSet(fr *Frame, body map[*ssa.BasicBlock]bool) func(string) 
 			}
 			// external
 			key := fnKey(v)
+			switch key {
+			case "slices.ContainsFunc", "slices.IndexFunc", "slices.DeleteFunc", "slices.SortFunc", "slices.SortStableFunc":
+				// effect = effect of the function argument (see higherOrderStd)
+				if len(c.Args) == 2 {
+					if mc, ok := c.Args[1].(*ssa.MakeClosure); ok {
+						scanFn(mc.Fn.(*ssa.Function), depth+1)
+						if key != "slices.ContainsFunc" && key != "slices.IndexFunc" {
+							if sl, ok := c.Args[0].Type().Underlying().(*types.Slice); ok {
+								dirtySet[e.elemComp(sl.Elem())] = true
+							}
+						}
+						return
+					}
+					if f2, ok := c.Args[1].(*ssa.Function); ok {
+						scanFn(f2, depth+1)
+						return
+					}
+				}
+			}
 			for _, p := range e.w.ct.EffectFree {
 				if strings.HasPrefix(key, p) || strings.HasPrefix(strings.TrimPrefix(strings.TrimPrefix(key, "("), "*"), p) {
 					return
@@ -817,6 +842,17 @@ func (e *Enc) loopModSet(fr *Frame, body map[*ssa.BasicBlock]bool) func(string) 
 		case *ssa.MakeClosure:
 			scanFn(v.Fn.(*ssa.Function), depth+1)
 			return
+		case *ssa.Parameter:
+			// a call through a function-typed parameter of the (inlined) function whose loop is
+			// analysed: if the caller passed a known closure, that closure is what runs
+			if depth == 0 {
+				for i, p := range fr.fn.Params {
+					if p == v && i < len(fr.args) && fr.args[i].Clo != nil {
+						scanFn(fr.args[i].Clo.Fn, depth+1)
+						return
+					}
+				}
+			}
 		}
 		all = true
 		allRepo = true
@@ -843,20 +879,20 @@ func (e *Enc) loopModSet(fr *Frame, body map[*ssa.BasicBlock]bool) func(string) 
 				}
 				pt := root.X.Type().Underlying().(*types.Pointer)
 				set[e.fieldComp(pt.Elem(), root.Field)] = true
-				if depth != 0 || !freshDerived(root.X, map[ssa.Value]bool{}) {
+				if !freshDerived(root.X, map[ssa.Value]bool{}) {
 					nonFresh[e.fieldComp(pt.Elem(), root.Field)] = true
 				}
 			case *ssa.IndexAddr:
 				switch bt := a.X.Type().Underlying().(type) {
 				case *types.Slice:
 					set[e.elemComp(bt.Elem())] = true
-					if depth != 0 || !freshDerived(a.X, map[ssa.Value]bool{}) {
+					if !freshDerived(a.X, map[ssa.Value]bool{}) {
 						nonFresh[e.elemComp(bt.Elem())] = true
 					}
 				case *types.Pointer:
 					if at, ok := bt.Elem().Underlying().(*types.Array); ok {
 						set[e.elemComp(at.Elem())] = true
-						if depth != 0 || !freshDerived(a.X, map[ssa.Value]bool{}) {
+						if !freshDerived(a.X, map[ssa.Value]bool{}) {
 							nonFresh[e.elemComp(at.Elem())] = true
 						}
 					}
@@ -963,33 +999,54 @@ func (e *Enc) loopModSet(fr *Frame, body map[*ssa.BasicBlock]bool) func(string) 
 	}
 	otherStore := map[string]bool{} // components touched by anything but the fresh-tracked instructions
 	realSet := set
+	inner := scanInstr
+	scanInstr = func(in ssa.Instruction, depth int) {
+		tracked, leaf := false, true
+		switch x := in.(type) {
+		case *ssa.Store:
+			switch x.Addr.(type) {
+			case *ssa.FieldAddr, *ssa.IndexAddr:
+				tracked = true
+			case *ssa.Alloc:
+				// a cell allocated by the executing function (escaping local / captured variable)
+				tracked = true
+			}
+		case *ssa.Alloc, *ssa.MakeSlice, *ssa.MakeMap:
+			tracked = true
+		case *ssa.Call:
+			if bi, ok := x.Call.Value.(*ssa.Builtin); ok && bi.Name() == "append" {
+				tracked = true
+			} else {
+				leaf = false // callees are scanned instruction by instruction; contract effects go to dirtySet
+			}
+		case *ssa.Defer:
+			leaf = false
+		}
+		if !leaf {
+			inner(in, depth)
+			return
+		}
+		saved := set
+		set = map[string]bool{}
+		inner(in, depth)
+		for c := range set {
+			realSet[c] = true
+			if !tracked {
+				otherStore[c] = true
+			}
+		}
+		set = saved
+	}
 	for b := range body {
 		for _, in := range b.Instrs {
-			tracked := false
-			switch x := in.(type) {
-			case *ssa.Store:
-				switch x.Addr.(type) {
-				case *ssa.FieldAddr, *ssa.IndexAddr:
-					tracked = true
-				}
-			case *ssa.Alloc, *ssa.MakeSlice, *ssa.MakeMap:
-				tracked = true
-			case *ssa.Call:
-				if bi, ok := x.Call.Value.(*ssa.Builtin); ok && bi.Name() == "append" {
-					tracked = true
-				}
-			}
-			set = map[string]bool{}
 			scanInstr(in, 0)
-			for c := range set {
-				realSet[c] = true
-				if !tracked {
-					otherStore[c] = true
-				}
-			}
-			set = realSet
 		}
 	}
+	for c := range dirtySet {
+		realSet[c] = true
+		otherStore[c] = true
+	}
+	set = realSet
 	// locals of this frame allocated before the loop but written in it through captured closures
 	if all {
 		for _, n := range fr.locals {
@@ -998,9 +1055,15 @@ func (e *Enc) loopModSet(fr *Frame, body map[*ssa.BasicBlock]bool) func(string) 
 	}
 	// components only written through fresh memory (and not by any callee): the cells that existed at
 	// function entry keep their contents across the loop
-	if !all && len(pats) == 0 {
+	if !all {
 		for c := range set {
-			if (strings.HasPrefix(c, "E:") || strings.HasPrefix(c, "F:")) && !nonFresh[c] && !otherStore[c] {
+			inPats := false
+			for _, p := range pats {
+				if matchComp(p, c) {
+					inPats = true
+				}
+			}
+			if (strings.HasPrefix(c, "E:") || strings.HasPrefix(c, "F:") || strings.HasPrefix(c, "C:")) && !nonFresh[c] && !otherStore[c] && !inPats {
 				e.loopFreshOnly = append(e.loopFreshOnly, c)
 			}
 		}
@@ -1343,4 +1406,41 @@ func (e *Enc) siteOrdinal(fn *ssa.Function, site ssa.Instruction, pattern string
 		}
 	}
 	return 0
+}
+
+// higherOrderStd: the generic helpers of package slices that take a function argument touch the heap
+// only through that function (plus, for the in-place ones, the elements of their slice argument).
+// When the function argument is a closure known at the call site, the call havocs exactly what the
+// closure's body can modify (computed like a loop's modification set); the result is unconstrained.
+func (e *Enc) higherOrderStd(fr *Frame, key string, c *ssa.CallCommon, args []Val, st *State, resType types.Type) (Val, *State, bool) {
+	inPlace := false
+	switch key {
+	case "slices.ContainsFunc", "slices.IndexFunc":
+	case "slices.DeleteFunc", "slices.SortFunc", "slices.SortStableFunc":
+		inPlace = true
+	default:
+		return Val{}, nil, false
+	}
+	if len(args) != 2 || args[1].Clo == nil || args[1].Clo.Fn.Blocks == nil {
+		return Val{}, nil, false
+	}
+	cf := args[1].Clo.Fn
+	body := map[*ssa.BasicBlock]bool{}
+	for _, b := range cf.Blocks {
+		body[b] = true
+	}
+	pf := &Frame{fn: cf, args: nil, bind: args[1].Clo.Bind, depth: fr.depth + 1, parent: fr, top: fr.top, locals: map[*ssa.Alloc]string{}}
+	savedFresh := e.loopFreshOnly
+	mod := e.loopModSet(pf, body)
+	e.loopFreshOnly = savedFresh
+	elem := ""
+	if inPlace {
+		if sl, ok := c.Args[0].Type().Underlying().(*types.Slice); ok {
+			elem = e.elemComp(sl.Elem())
+		}
+	}
+	st = e.Leak(st, args[0])
+	st = e.Havoc(st, func(comp string) bool { return comp == elem || mod(comp) })
+	e.trusted["slices."+strings.TrimPrefix(key, "slices.")+": touches the heap only through its function argument (and, in place, the elements of its slice argument)"] = true
+	return e.freshVal("res_"+shortKey(key), resType), st, true
 }
